@@ -141,6 +141,12 @@ def _eval(e, env):
         return _eval_block(e["then"], env) if c else _eval_block(e["else"], env)
     if H.is_k(e, "block"):
         return _eval_block(e, env)
+    if H.is_k(e, "match"):
+        v = _eval(e["scrut"], env)
+        i, arm, e2 = H.first_arm(e, v, env)
+        if arm is None:
+            raise H.Unsupported("no arm")
+        return _eval(arm["body"], e2)
     return H.eval_expr(e, env)
 
 
